@@ -68,6 +68,7 @@ func verifyFunction(P *Program, S *Specs, key string) (res *FuncResult) {
 	hs, _ := loopHeaders(fn)
 	needDiscover := len(hs) > 0 || true
 	var last *Exec
+	heapRegs := map[string]func(*Ctx){}
 	for pass := 0; pass < 2; pass++ {
 		discover := pass == 0
 		if discover && !needDiscover {
@@ -77,7 +78,7 @@ func verifyFunction(P *Program, S *Specs, key string) (res *FuncResult) {
 		c.curFunc = key
 		c.discard = discover
 		x := &Exec{c: c, P: P, S: S, modsets: modsets, discover: discover, maxDepth: 5,
-			inlined: map[string]bool{}, havocked: map[string]bool{}, usedStub: map[string]bool{}, fnAt: map[string]*FnVal{}}
+			inlined: map[string]bool{}, havocked: map[string]bool{}, usedStub: map[string]bool{}, fnAt: map[string]*FnVal{}, heapRegs: heapRegs}
 		if ct.Flags["depth"] != "" {
 			fmt.Sscanf(ct.Flags["depth"], "%d", &x.maxDepth)
 		}
@@ -98,12 +99,18 @@ func verifyFunction(P *Program, S *Specs, key string) (res *FuncResult) {
 		}
 		st.heap[c.ghostVar("$alloc", "Int")] = "0"
 		for gname, srt := range S.GhostVars {
-			_ = c.ghostVar(gname, srt)
+			_ = c.ghostVar(gname, x.resolveSort(srt))
 		}
 		for i, p := range fn.Params {
 			f.env[p] = args[i]
 		}
 		x.rootOld = st.clone()
+		f.params = map[string]SV{}
+		f.paramSorts = map[string]string{}
+		for _, gp := range ct.GhostParams {
+			f.params[gp[0]] = tv(c.declConst(f.prefix+"/ghost:"+gp[0], gp[1]))
+			f.paramSorts[gp[0]] = gp[1]
+		}
 		// axioms
 		for _, ax := range S.Axioms {
 			if !axiomRelevant(ax, ct) {
@@ -130,9 +137,15 @@ func verifyFunction(P *Program, S *Specs, key string) (res *FuncResult) {
 		res.ReachRet = reach
 		if !discover {
 			for _, r := range f.rets {
+				if len(ct.GhostSets) > 0 {
+					env := f.specEnv(r.st, x.rootOld, nil)
+					env.withResults(fn.Signature, r.vals)
+					env.ghostSets(ct, r.st, "true")
+				}
 				for _, en := range ct.Ensures {
 					env := f.specEnv(r.st, x.rootOld, nil)
 					env.withResults(fn.Signature, r.vals)
+					env.prove = true
 					c.oblige("ensures", en.Tags, r.guard, env.boolClause(en), en.Src, en.Text)
 				}
 				if a := ct.Flags["alloc"]; a != "" {
@@ -145,6 +158,11 @@ func verifyFunction(P *Program, S *Specs, key string) (res *FuncResult) {
 					bound := env.eval(ex)
 					c.oblige("alloc", ct.Sweep, r.guard, fmt.Sprintf("(<= %s %s)", r.st.get(c.ghostVar("$alloc", "Int")), bound.T), ct.Src, "allocation budget: alloc <= "+a)
 				}
+			}
+		}
+		if discover {
+			for k, r := range c.heapReg {
+				heapRegs[k] = r
 			}
 		}
 		last = x
